@@ -2,6 +2,8 @@ from engine.api import Target, Proof, Native
 ID = 'C03'
 LEVEL = 'proof'
 TC = 'thread/thread.cpp'
+CVW = [(r'cvar_do_wait\(\(thread_list\*\)&q, m, timeout, (\w+), (\w+)\)', r'cvar_do_wait_c(&this->q, m, timeout, \1, \2)', 0),
+       (r'm->unlock\(\)', 'direct_unlock(m)', 0), (r'm->lock\(\)', 'direct_lock(m)', 0), (r'waitq::wait\(timeout\)', 'waitq_wait_(this, timeout)', 0)]
 TARGETS = [
     Target('waitq_translate_errno', TC, r'inline int waitq_translate_errno\(int ret\)'),
     Target('cvar_do_wait', TC, r'static int cvar_do_wait\(thread_list\* q, void\* m, Timeout timeout, int\(\*lock\)\(void\*\), void\(\*unlock\)\(void\*\)\)', rules=[
@@ -9,6 +11,8 @@ TARGETS = [
         (r'thread_usleep_defer\(', 'thread_usleep_defer_(', 1), (r'(\w+)\.(expired|expiration|timeout)\(\)', r'Timeout_\2_(&\1)', 0), (r'thread_usleep\(1000, NULL\)', 'thread_usleep_(1000, NULL)', 1)],
         marks={'count': 1, 0: dict(name='CVW', frame=['lock_ret', 'errno', 'N_LOCK_CALLS', 'N_BACKOFF', 'LOCK_HELD', 'N_LOCK_OK'],
                effects={'lock': ['errno', 'N_LOCK_CALLS', 'LOCK_HELD', 'N_LOCK_OK'], 'thread_usleep_': ['errno', 'N_BACKOFF']}, pure=[])}),
+    Target('cv_wait_mutex', TC, r'int condition_variable::wait\(mutex\* m, Timeout timeout\)', rules=CVW),
+    Target('cv_wait_spin', TC, r'int condition_variable::wait\(spinlock\* m, Timeout timeout\)', rules=CVW),
     Target('resume_one', TC, r'thread\* waitq::resume_one\(int error_number\)', pre_rules=[
         (r'ScopedLockHead h\(this\);', 'th_t h = SLH_ctor(this); DEFER(SLH_dtor(h));', 1)], defers=dict(rettype='th_t'),
         rules=[(r'prelocked_thread_interrupt\(', 'prelocked_thread_interrupt_(', 1)]),
@@ -30,6 +34,7 @@ PROOFS = [
     Proof('resume/interrupt_keeps_reason', 'sched.c', 'h_interrupt', kind='L', defines=['STUB_PRELOCKED'], min_obligations=5),
     Proof('resume/wake_sleeper', 'sched.c', 'h_prelocked', kind='L', min_obligations=4),
     Proof('resume/prepare_usleep', 'sched.c', 'h_prepare_usleep', kind='L', min_obligations=6),
+    Proof('wait_overloads', 'cv.c', 'h_cv_wait_overloads', kind='L', min_obligations=3),
     Proof('resume', 'cv.c', 'h_resume', kind='L', min_obligations=3),
 ]
 NATIVES = [Native('native', 'native.cpp', args_quick=[400], args_thorough=[20000], timeout=3000, link_photon=True, cxxflags=['-fpermissive'])]
